@@ -173,6 +173,12 @@ func (s *Solver) Check(pc []*Term, extra *Term, want []*Term) (string, []uint64)
 		}
 	}()
 	s.Queries++
+	// watchdog: the solver may also hang while it is being *fed* (a write into a full pipe has no
+	// deadline; z3 has been seen busy for half an hour inside one command with its timeout
+	// ignored). Killing it makes the pending write / read fail; the query is then inconclusive.
+	cmd := s.cmd
+	wd := time.AfterFunc(time.Duration(s.timeoutMs)*time.Millisecond*2+35*time.Second, func() { cmd.Process.Kill() })
+	defer wd.Stop()
 	s.sync(pc)
 	if extra != nil {
 		r := s.emit(extra)
